@@ -33,6 +33,7 @@ import (
 	"github.com/kubewharf/kubebrain/pkg/backend/tso"
 	"github.com/kubewharf/kubebrain/pkg/metrics"
 	"github.com/kubewharf/kubebrain/pkg/storage"
+	"github.com/kubewharf/kubebrain/pkg/verifhook"
 )
 
 const (
@@ -212,6 +213,10 @@ func (b *backend) collectStorageWriteEvents() {
 	for {
 		cnt := 0
 		for cnt < eventBatchSize {
+			if b.verifStopped() {
+				close(b.watchChan)
+				return
+			}
 			idx := (b.GetCurrentRevision() + 1) % watchersChanCapacity
 			watchEvent, ok := b.watchEventsRingBuffer[idx].Load().(*common.WatchEvent)
 			if !ok || watchEvent == nil {
@@ -258,12 +263,14 @@ func (b *backend) collectStorageWriteEvents() {
 			events[cnt] = e
 			cnt++
 			// set watch cache
+			verifhook.Point("collect.beforeCacheAdd", b, e)
 			b.watchCache.Add(e)
 		}
 
 		if cnt > 0 {
 			evs := make([]*proto.Event, cnt)
 			copy(evs, events[:cnt])
+			verifhook.Point("collect.beforeBroadcast", b, evs)
 			b.watchChan <- evs
 		}
 	}
